@@ -69,7 +69,7 @@ let () =
           (match atom mode with
            | "matches" ->
                outcome (fun (m, log) -> List [Atom "ok"; Atom (if m then "1" else "0"); of_log (List.rev log)])
-                 (B.subword_matches var tabs e t (cl (string_ w)) [])
+                 (B.subword_matches var tabs e t [] (cl (string_ w)) [])
            | "complete" ->
                outcome (fun (adds, log) -> List [Atom "ok"; List (Atom "adds" :: List.map ss adds); of_log (List.rev log)])
                  (B.subword_complete var tabs e t (cl (string_ w)) [])
@@ -128,7 +128,8 @@ let of_alltables (t : Extracted.Dfa.alltables) : t =
         List [Atom "main"; Dfa_io.of_tables t.D.a_main];
         List (Atom "subtrans" :: List.map Dfa_io.of_row t.D.a_subtrans);
         List [Atom "csub"; Dfa_io.of_levels t.D.a_csub];
-        List (Atom "subwords" :: List.map (fun ((p, i), tb) -> List [sn p; sn i; Dfa_io.of_tables tb]) t.D.a_subwords)]
+        List (Atom "subwords" :: List.map (fun ((p, i), tb) -> List [sn p; sn i; Dfa_io.of_tables tb]) t.D.a_subwords);
+        List (Atom "subaccepting" :: List.map Dfa_io.of_ids_row t.D.a_subaccepting)]
 
 (* chaintables ("lit"...) ipre "next" -> (alltables ...) in cg-dump's format (without needs / shapehash) *)
 let () =
